@@ -511,7 +511,7 @@ def pipeline_obligations():
        note='[C04 lemma 5] the do-while terminates within `size` steps given live_num == number of non-retired buffers; false iff none is left')
     nrb = 0
     for T in T_VALUES:
-        ob('pipe_run_buffer_T%d' % T, 'buffergroup__run_buffer', 'g->size = WV_T_FIX; g->fin = f; g->fout = f2; buffergroup__run_buffer(g);',
+        ob('pipe_run_buffer_T%d' % T, 'buffergroup__run_buffer', 'g->size = WV_T_FIX; g->fin = f; g->fout = f2; wv_worker_mask = 0xffffu; buffergroup__run_buffer(g);',
            ['bufferctrl__wait_update', 'buffergroup__buffer_update', 'buffergroup__turn_iter'], group=True, timeout=2400, defines_extra=['WV_T_FIX=%d' % T],
            tier='quick' if T in (1, 2) else 'thorough',
            extra=fh + '  wv_FILE *f2 = malloc(sizeof(wv_FILE));\n  __CPROVER_assume(f2 != NULL);\n',
